@@ -11,7 +11,7 @@ CONSTANTS
   EnvShift = 1
   SkipLastBond = FALSE
   DropInnerTag = TRUE
-  AliasExcused = TRUE
+  StoreByRef = FALSE
   Emit = FALSE
 INVARIANT EnvConsistent
 CHECK_DEADLOCK FALSE
